@@ -86,7 +86,13 @@ func (s *storage[T]) vals() []int64 {
 	out := make([]int64, s.size())
 	for i := range out {
 		if s.c32 != nil {
-			out[i] = int64(s.c32[guardN+i])
+			// what the code reads back: int(C.int) sign-extends, uint(C.uint) zero-extends
+			var z T
+			if _, unsigned := any(z).(uint); unsigned {
+				out[i] = int64(uint32(s.c32[guardN+i]))
+			} else {
+				out[i] = int64(s.c32[guardN+i])
+			}
 		} else {
 			out[i] = int64(s.data[i])
 		}
